@@ -341,6 +341,7 @@ def main():
     # requested number of permutations, each of that class's cycle type
     from cayleypy import PermutationGroups as PG
 
+    multi_cases = []
     for _ in range(40 if not ck.thorough else 1500):
         n = rng.randint(4, 8)
         parts = [p for p in partitions(n) if len(p) - p.count(1) >= 1]
@@ -352,6 +353,18 @@ def main():
             classes[tuple(key)] = None if (rng.random() < 0.4 and class_size(n, lens) <= 300) else rng.choice([0, 1, 2, 3, 6])
         if all(v == 0 for v in classes.values()):
             continue  # a definition needs at least one generator
+        multi_cases.append((n, keys, classes))
+    # several ENUMERATED classes of larger symmetric groups in one call (two-digit points: n >= 11), e.g. the classical
+    # generating set "all transpositions and all 3-cycles"
+    for n in ((10, 11, 12, 13) if not ck.thorough else (10, 11, 12, 13, 14, 16)):
+        two = sorted([2] + [1] * (n - 2))
+        three = sorted([3] + [1] * (n - 3))
+        twotwo = sorted([2, 2] + [1] * (n - 4))
+        multi_cases.append((n, [two, three], {(2,): None, (3,): None}))
+        multi_cases.append((n, [three, two], {(3,): None, (2,): None}))
+        if n <= 12:
+            multi_cases.append((n, [two, twotwo], {(2,): None, (2, 2): None}))
+    for n, keys, classes in multi_cases:
         case = {"n": n, "classes": [[list(k), v] for k, v in classes.items()]}
         ck.case(["conj-multi", n, case["classes"]], True)
         ck.count("conjugacy_classes with several classes")
